@@ -822,6 +822,8 @@ theorem finfoTiny_pos_le_one (dt : Dtype) : (0 : ℝ) < finfoTiny dt ∧ (finfoT
   cases dt
   · simpa only [finfoTiny, q_real, Nat.cast_one] using key 126
   · simpa only [finfoTiny, q_real, Nat.cast_one] using key 1022
+  · simpa only [finfoTiny, q_real, Nat.cast_one] using key 14
+  · simpa only [finfoTiny, q_real, Nat.cast_one] using key 126
 
 theorem pdist_full (o : Norm) (pd : Nat) (a b : Pt ℝ) (ha : a.length ≤ pd) (hb : b.length ≤ pd) :
     pdist o pd a b = dist o a b := by
@@ -932,6 +934,56 @@ theorem argsortStd_contract : ArgsortContract argsortStd := by
 
 /-- intrinsics whose last row is `(0, 0, w)` -/
 def lastRowK (fx fy cx cy w : ℝ) : Mat3 ℝ := ⟨⟨fx, 0, cx⟩, ⟨0, fy, cy⟩, ⟨0, 0, w⟩⟩
+
+
+/-! ## ties at the selection boundary (class 35) -/
+
+/-- `L` is an admissible choice of the `m` nearest points of `p` in `pts`: a sub-multiset of `m` cloud points such that
+no left-out point is closer than a chosen one (ties at the cut may be broken either way) -/
+def Admissible (o : Norm) (pdim m : Nat) (pts : List (Pt ℝ)) (p : Pt ℝ) (L : List (Pt ℝ)) : Prop :=
+  L.length = m ∧ ∃ R, (L ++ R).Perm pts ∧ ∀ a ∈ L, ∀ b ∈ R, pdist o pdim p a ≤ pdist o pdim p b
+
+/-- whatever `topk` kernel is used, the points it selects form an admissible choice -/
+theorem topk_points_admissible (topk : Bool → List ℝ → Nat → List Nat) (htk : TopkContract topk) (o : Norm) (pdim m : Nat) (pts : List (Pt ℝ)) (p : Pt ℝ)
+    (hm : m ≤ pts.length) :
+    Admissible o pdim m pts p ((topk false (pts.map (pdist o pdim p)) m).map fun i => pts.getD i []) := by
+  set f := pdist o pdim p
+  set idx := topk false (pts.map f) m with hidx
+  have h := htk false (pts.map f) m (by simpa using hm)
+  have hin : ∀ i ∈ idx, i < pts.length := fun i hi => by simpa using h.inb i hi
+  set rest := (List.range pts.length).filter (fun j => decide (j ∉ idx)) with hrest
+  have hnd : (idx ++ rest).Nodup := by
+    apply List.Nodup.append h.nodup (List.Nodup.filter _ List.nodup_range)
+    intro a ha hb
+    simp only [List.mem_filter, decide_eq_true_eq] at hb
+    exact hb.2 ha
+  have hperm : (idx ++ rest).Perm (List.range pts.length) := by
+    rw [List.perm_ext_iff_of_nodup hnd List.nodup_range]
+    intro a
+    simp only [hrest, List.mem_append, List.mem_filter, List.mem_range, decide_eq_true_eq]
+    constructor
+    · rintro (ha | ha)
+      · exact hin a ha
+      · exact ha.1
+    · intro ha
+      by_cases hm' : a ∈ idx
+      · exact Or.inl hm'
+      · exact Or.inr ⟨ha, hm'⟩
+  refine ⟨by simpa using h.len, rest.map (fun i => pts.getD i []), ?_, ?_⟩
+  · have := hperm.map (fun i => pts.getD i [])
+    rwa [map_getD_range', List.map_append] at this
+  · intro a ha b hb
+    simp only [List.mem_map] at ha hb
+    obtain ⟨i, hi, rfl⟩ := ha
+    obtain ⟨j, hj, rfl⟩ := hb
+    simp only [hrest, List.mem_filter, List.mem_range, decide_eq_true_eq] at hj
+    have hl := h.least i hi j (by simpa using hj.1) hj.2
+    simp only [ordRel] at hl
+    have hi' : i < (pts.map f).length := by simpa using hin i hi
+    have hj' : j < (pts.map f).length := by simpa using hj.1
+    rw [List.getD_eq_getElem (pts.map f) 0 (n := i) hi', List.getD_eq_getElem (pts.map f) 0 (n := j) hj'] at hl
+    rw [List.getD_eq_getElem pts [] (n := i) (hin i hi), List.getD_eq_getElem pts [] (n := j) hj.1]
+    simpa using hl
 
 
 /-! ## definitional facts and restatements (moved out of `Proofs/Props/C18.lean` after the audit)
